@@ -18,8 +18,9 @@ import numpy as np
 
 VERIF = Path(__file__).resolve().parent.parent
 LEAN = VERIF / "lean"
-EVIDENCE = VERIF / "evidence"
-REPLAYS = VERIF / "replays"
+# (tools/seed_matrix_wt2.sh redirects both so that parallel runs against patched copies of physt do not touch the real ones)
+EVIDENCE = Path(os.environ["VERIF_EVIDENCE_DIR"]) if os.environ.get("VERIF_EVIDENCE_DIR") else VERIF / "evidence"
+REPLAYS = Path(os.environ["VERIF_REPLAY_DIR"]) if os.environ.get("VERIF_REPLAY_DIR") else VERIF / "replays"
 CORPUS = VERIF / "corpus"
 KNOWN = VERIF / "known_findings.json"
 
